@@ -384,7 +384,13 @@ def check(pid, tier):
         coverage.update({"evaluations": ev_n, "distinct_nontrivial": dn,
                          "rule": "; ".join(b["rule"] for b in bounded if b["rule"]),
                          "exhaustive": all(b["exhaustive"] for b in bounded) if bounded else False,
-                         "explanation": cfg.get("explanation", "")})
+                         "explanation": cfg.get("explanation") or (
+                             f"mixed evidence. Layer P (deductive, counted as proved): {len(real) - len(failed)} of {len(real)} verification "
+                             f"conditions discharged for {len(reports)} function bodies "
+                             f"({', '.join(sorted({r.target.split(':')[1] for r in reports})) or 'none yet'}). "
+                             f"Layer B (bounded, never counted as proved): {ev_n} cases run on the real code under run-time contracts / "
+                             f"oracles written from the property statement ({'; '.join(b['bound'] for b in bounded if b['bound'])}); "
+                             f"{dn} distinct non-trivial cases. Known findings are carved out by input class and replayed on every run.")})
         bs = [s for b in bounded for s in b["samples"]]
         if bs:
             coverage["samples"] = bs + samples
